@@ -440,12 +440,23 @@ impl Driver for AddedLocals {
             v
         };
         let n_add = c.t.range(1, 10);
-        let mut plan: Vec<(usize, VT, u8)> = vec![]; // (local func k, type, api)
-        for _ in 0..n_add {
+        // (local func k, type, api, position in a bulk add_locals call: 0 = first / not bulk)
+        let mut plan: Vec<(usize, VT, u8, usize)> = vec![];
+        while plan.len() < n_add {
             let k = c.t.below(gm.funcs.len());
             let ty = *c.t.pick(&pool);
             let api = if via_component { 3 } else { c.t.below(3) as u8 };
-            plan.push((k, ty, api));
+            plan.push((k, ty, api, 0));
+            if api == 1 {
+                // bulk call: 1-4 types, runs of equal adjacent types are common
+                let extra = c.t.below(4);
+                let mut prev = ty;
+                for j in 0..extra {
+                    let t = if c.t.bool() { prev } else { *c.t.pick(&pool) };
+                    plan.push((k, t, 1, j + 1));
+                    prev = t;
+                }
+            }
         }
         let nparams = |k: usize| match &gm.types[gm.funcs[k].ty as usize].comp {
             GComposite::Func { params, .. } => params.len(),
@@ -464,7 +475,7 @@ impl Driver for AddedLocals {
                 };
                 {
                     let mut it = wirm::iterator::component_iterator::ComponentIterator::new(&mut comp, std::collections::HashMap::new());
-                    for (k, ty, _) in &plan {
+                    for (k, ty, _, _) in &plan {
                         // walk to function k
                         it.reset();
                         loop {
@@ -496,9 +507,14 @@ impl Driver for AddedLocals {
                     Ok(m) => m,
                     Err(e) => return Err(fail("parse-err", format!("{:?}", e))),
                 };
-                for (k, ty, api) in &plan {
+                for (pi, (k, ty, api, pos)) in plan.iter().enumerate() {
                     let fid = FunctionID((n_fimp + *k) as u32);
                     let want_idx = nparams(*k) + counts[*k];
+                    if *api == 1 && *pos > 0 {
+                        // part of the bulk call issued at its first element
+                        counts[*k] += 1;
+                        continue;
+                    }
                     let got: Option<u32> = match api {
                         0 => {
                             let mut fm = module.functions.get_fn_modifier(fid).expect("local function");
@@ -506,7 +522,15 @@ impl Driver for AddedLocals {
                         }
                         1 => {
                             let mut fm = module.functions.get_fn_modifier(fid).expect("local function");
-                            fm.add_locals(&[dt(*ty)]);
+                            let mut tys = vec![dt(*ty)];
+                            for q in &plan[pi + 1..] {
+                                if q.2 == 1 && q.3 > 0 {
+                                    tys.push(dt(q.1));
+                                } else {
+                                    break;
+                                }
+                            }
+                            fm.add_locals(&tys);
                             None
                         }
                         _ => {
@@ -555,7 +579,7 @@ impl Driver for AddedLocals {
         if let Err(e) = dm::validate(&out_mod) {
             return fail(format!("invalid-output:{}", mask(e.split(" (at offset").next().unwrap_or(&e), 50)), e);
         }
-        for (k, ty, _) in &plan {
+        for (k, ty, _, _) in &plan {
             want.funcs[n_fimp + *k].locals.push(format!("{:?}", super::edit::wasmparser_valtype(*ty)));
         }
         let got = match dm::decode(&out_mod) {
@@ -567,6 +591,12 @@ impl Driver for AddedLocals {
             return o;
         }
         c.class(if via_component { "api:component_iterator" } else { "api:module" });
+        if plan.windows(2).any(|w| w[1].3 > 0 && w[0].1 == w[1].1) {
+            c.class("bulk_add_locals_with_run_of_equal_types");
+            if plan.iter().enumerate().any(|(i, p)| p.3 > 0 && plan[i + 1..].iter().any(|q| q.0 == p.0 && q.3 == 0)) {
+                c.class("bulk_run_then_later_addition_on_same_function");
+            }
+        }
         // non-trivial: two additions with a type change on one function that already had locals
         let mut nt = false;
         for k in 0..gm.funcs.len() {
